@@ -191,7 +191,7 @@ func (Driver) Run(c *core.Ctx) {
 		// weaken
 		abs := make([]cty.Value, len(conc))
 		var recs []gen.Weakening
-		wo := gen.WeakenOpts{Pct: 12 + r.Intn(25), Refined: r.Chance(3, 4), Dynamic: r.Chance(1, 3)}
+		wo := gen.WeakenOpts{Pct: 12 + r.Intn(25), Refined: r.Chance(3, 4), Dynamic: r.Chance(1, 3), InflateSets: true}
 		for k, v := range conc {
 			w := wo
 			if k == len(conc)-1 && len(recs) == 0 {
@@ -213,6 +213,13 @@ func (Driver) Run(c *core.Ctx) {
 		runNullPairs(c, 4_000_000_000)
 	}
 }
+
+// classSuffix is appended to the class of "does not admit" violations raised while it is set. The
+// twin enumeration sets it for cases whose two CONCRETE operands are the same number by documented
+// equality (same shortest decimal text) but differ exactly: on such pairs Equals and the exact
+// order disagree by design (known finding F-47), so a bound lying between them separates two
+// "equal" numbers. Those cases get their own class; every other case keeps the strict class.
+var classSuffix string
 
 func checkCase(c *core.Ctx, idx int64, op opDef, conc, abs []cty.Value, attr string, nrep int) {
 	desc := func() string {
@@ -259,7 +266,7 @@ func checkCase(c *core.Ctx, idx int64, op opDef, conc, abs []cty.Value, attr str
 		c.Count("abstract-result:known")
 	}
 	if why := mon.Admits(ares, cres); why != "" {
-		c.Violate("Value."+op.name, "abstract result does not admit the concrete result", admitClass(why), desc(),
+		c.Violate("Value."+op.name, "abstract result does not admit the concrete result", admitClass(why)+classSuffix, desc(),
 			fmt.Sprintf("concrete result %#v; abstract result %#v; %s", cres, ares, why))
 	}
 	if c.WantSample() && nrep > 0 {
